@@ -394,6 +394,9 @@ def sc_pixfmt(rng):
     cfg = rand_cfg(rng, wenc=rng.choice([0, 5]))
     s = Script(rng, cfg)
     for _ in range(rng.randint(3, 6)):
+        if rng.random() < 0.4:       # application cursor around the update-buffer boundaries
+            n = rng.choice([1, 7, 32, 64, 88, 89, 91, 100, 124, 127, 128, 170, 176, 182, 200])
+            s.lines.append("app cursor %d %d" % (n, rng.choice([n, n, 1, 2 * n])))
         i = s.handshake()
         r = rng.random()
         fmt = rand_spf(rng) if r < 0.4 else (boundary_spf(rng) if r < 0.7 else wellformed_spf(rng))
@@ -1205,6 +1208,36 @@ def core_preauth(cfg):
     return s
 
 
+def core_cursor(bytespp):
+    """application cursors whose image just fits / just does not fit the update buffer in the
+    CLIENT's pixel format, on 8 and 16 bpp screens, sent as RichCursor / XCursor to clients whose
+    format is wider than, equal to and narrower than the server's"""
+    import random
+    rng = random.Random(4013 + bytespp)
+    cfg = dict(CORE_CFGS[0], w=192, h=192, bpp=bytespp, tight=0, ft=0, wenc=0)
+    s = Script(rng, cfg)
+    W, H = cfg["w"], cfg["h"]
+    # 32 bpp client: 4*n*n + mask + 18 <= 32768 up to n = 88; 16 bpp: up to 124; 8 bpp: up to 170
+    sizes = [16, 88, 89, 90, 124, 125, 128, 170, 171, 182]
+    fmts = [m_spf(), m_spf(16, 16, 0, 1, 31, 63, 31, 11, 5, 0), m_spf(8, 8, 0, 1, 7, 7, 3, 0, 3, 6), b""]
+    for n in sizes:
+        s.lines.append("app cursor %d %d" % (n, n))
+        s.tick()
+        for fmt in fmts:
+            for enc in (E_RICH, E_XCURSOR):
+                i = s.handshake()
+                s.tag("core-cursor")
+                s.send(i, fmt + m_setenc([E_RAW, enc]) + m_fbur(0, 0, 0, W, H))
+                s.send(i, m_fbur(1, 0, 0, W, H))
+        s.tick()
+    s.lines.append("app cursor %d %d" % (300, 3))
+    i = s.handshake()
+    s.send(i, m_spf() + m_setenc([E_HEX, E_RICH, E_PTRPOS]) + m_fbur(0, 0, 0, W, H))
+    s.tick()
+    s.lines.append("end")
+    return s
+
+
 def core_scripts():
     out = []
     for cfg in CORE_CFGS:
@@ -1215,6 +1248,8 @@ def core_scripts():
     out.append(("core_ws", core_ws(CORE_CFGS[0])))
     out.append(("core_ws2", core_ws2(CORE_CFGS[0])))
     out.append(("core_tight", core_tight(CORE_CFGS[0])))
+    for bytespp in (1, 2, 4):
+        out.append(("core_cursor", core_cursor(bytespp)))
     for w in (4999, 5000, 5001, 10000, 0):
         out.append(("core_wait", core_wait(w)))
     for cfg in CORE_CFGS + [dict(CORE_CFGS[0], pw=1), dict(CORE_CFGS[1], tight=1)]:
